@@ -517,43 +517,67 @@ Proof.
 Qed.
 
 (* ------------------------------------------------------------------ *)
-(* Sonar *)
+(* Regenerated sensor constants *)
 
-Theorem sonar_pw_scale : forall T out period,
-  units_ok T = true -> In out builtin_units ->
-  exists y, sonar_pw (link_table T) out period = Val y /\
-            y == (period / us147) * metres_per u_inch / metres_per out.
+Lemma consts_ok_inv K : consts_ok K = true ->
+  c_pw_unit K = u_inch /\ c_pw_div K == us147 /\
+  c_an_unit K = u_centimeter /\ c_an_div K == mv4_9 /\
+  c_scale K == 250 /\ c_offset K == 25 /\ c_floor K == v_floor /\ c_zero K == 0 /\
+  c_cal_floor K == v_floor /\ c_cal_slope K == 4 # 1000 /\ c_cal_off K == 1 # 10.
 Proof.
-  intros T out period HT Io. unfold sonar_pw.
-  apply builtin_factor; [exact HT|exact in_builtin_3|exact Io].
+  unfold consts_ok. rewrite !andb_true_iff, !Nat.eqb_eq, !Qeq_bool_iff. tauto.
 Qed.
 
-Theorem sonar_an_scale : forall T out v,
-  units_ok T = true -> In out builtin_units ->
-  exists y, sonar_an (link_table T) out v = Val y /\
+Lemma v_floor_pos : 0 < v_floor. Proof. reflexivity. Qed.
+
+Theorem consts_ok_floor_pos K : consts_ok K = true -> 0 < c_floor K /\ 0 < c_cal_floor K.
+Proof.
+  intro H. destruct (consts_ok_inv K H) as (_ & _ & _ & _ & _ & _ & Hf & _ & Hcf & _).
+  rewrite Hf, Hcf. split; exact v_floor_pos.
+Qed.
+
+(* ------------------------------------------------------------------ *)
+(* Sonar *)
+
+Theorem sonar_pw_scale : forall T K out period,
+  units_ok T = true -> consts_ok K = true -> In out builtin_units ->
+  exists y, sonar_pw K (link_table T) out period = Val y /\
+            y == (period / us147) * metres_per u_inch / metres_per out.
+Proof.
+  intros T K out period HT HK Io. unfold sonar_pw.
+  destruct (consts_ok_inv K HK) as (Hu & Hd & _). rewrite Hu.
+  destruct (builtin_factor T u_inch out (period / c_pw_div K) HT in_builtin_3 Io) as (y & H & E).
+  exists y. split; [exact H|]. rewrite E, Hd. reflexivity.
+Qed.
+
+Theorem sonar_an_scale : forall T K out v,
+  units_ok T = true -> consts_ok K = true -> In out builtin_units ->
+  exists y, sonar_an K (link_table T) out v = Val y /\
             y == (v / mv4_9) * metres_per u_centimeter / metres_per out.
 Proof.
-  intros T out v HT Io. unfold sonar_an.
-  apply builtin_factor; [exact HT|exact in_builtin_1|exact Io].
+  intros T K out v HT HK Io. unfold sonar_an.
+  destruct (consts_ok_inv K HK) as (_ & _ & Hu & Hd & _). rewrite Hu.
+  destruct (builtin_factor T u_centimeter out (v / c_an_div K) HT in_builtin_1 Io) as (y & H & E).
+  exists y. split; [exact H|]. rewrite E, Hd. reflexivity.
 Qed.
 
 Lemma mul_div_cancel a m : ~ m == 0 -> a * m / m == a.
 Proof. intro H. field. exact H. Qed.
 
-Theorem sonar_pw_inches : forall T period, units_ok T = true ->
-  exists y, sonar_pw (link_table T) u_inch period = Val y /\ y == period / (147 # 1000000).
+Theorem sonar_pw_inches : forall T K period, units_ok T = true -> consts_ok K = true ->
+  exists y, sonar_pw K (link_table T) u_inch period = Val y /\ y == period / (147 # 1000000).
 Proof.
-  intros T period HT.
-  destruct (sonar_pw_scale T u_inch period HT in_builtin_3) as (y & H & E).
+  intros T K period HT HK.
+  destruct (sonar_pw_scale T K u_inch period HT HK in_builtin_3) as (y & H & E).
   exists y. split; [exact H|]. rewrite E.
   apply (mul_div_cancel (period / us147)). exact (metres_per_nonzero _ in_builtin_3).
 Qed.
 
-Theorem sonar_an_centimetres : forall T v, units_ok T = true ->
-  exists y, sonar_an (link_table T) u_centimeter v = Val y /\ y == v / (49 # 10000).
+Theorem sonar_an_centimetres : forall T K v, units_ok T = true -> consts_ok K = true ->
+  exists y, sonar_an K (link_table T) u_centimeter v = Val y /\ y == v / (49 # 10000).
 Proof.
-  intros T v HT.
-  destruct (sonar_an_scale T u_centimeter v HT in_builtin_1) as (y & H & E).
+  intros T K v HT HK.
+  destruct (sonar_an_scale T K u_centimeter v HT HK in_builtin_1) as (y & H & E).
   exists y. split; [exact H|]. rewrite E.
   apply (mul_div_cancel (v / mv4_9)). exact (metres_per_nonzero _ in_builtin_1).
 Qed.
@@ -579,7 +603,13 @@ Proof.
   - rewrite (pymax_ge a b H). lra.
 Qed.
 
-Lemma v_floor_pos : 0 < v_floor. Proof. reflexivity. Qed.
+(* the floor may be any fraction with the documented value *)
+Lemma pymax_floor_eq a b b' : b == b' -> pymax a b == pymax a b'.
+Proof.
+  intro E. destruct (Qlt_le_dec a b) as [H|H].
+  - rewrite (pymax_lt a b H), (pymax_lt a b') by lra. exact E.
+  - rewrite (pymax_ge a b H), (pymax_ge a b') by lra. reflexivity.
+Qed.
 
 Lemma pymax_floor_pos v : 0 < pymax v v_floor.
 Proof. pose proof (pymax_bound v v_floor). pose proof v_floor_pos. lra. Qed.
@@ -593,39 +623,61 @@ Qed.
 Lemma pydiv_zero a b : b == 0 -> pydiv a b = Raise ZeroDivisionError.
 Proof. intro H. unfold pydiv. apply Qeq_bool_iff in H. rewrite H. reflexivity. Qed.
 
+Section Pressure.
+Variable K : sconsts.
+Hypothesis HK : consts_ok K = true.
+
+Let Hscale : c_scale K == 250. Proof. exact (proj1 (proj2 (proj2 (proj2 (proj2 (consts_ok_inv K HK)))))). Qed.
+Let Hoffset : c_offset K == 25.
+Proof. exact (proj1 (proj2 (proj2 (proj2 (proj2 (proj2 (consts_ok_inv K HK))))))). Qed.
+Let Hfloor : c_floor K == v_floor.
+Proof. exact (proj1 (proj2 (proj2 (proj2 (proj2 (proj2 (proj2 (consts_ok_inv K HK)))))))). Qed.
+Let Hzero : c_zero K == 0.
+Proof. exact (proj1 (proj2 (proj2 (proj2 (proj2 (proj2 (proj2 (proj2 (consts_ok_inv K HK))))))))). Qed.
+Let Hcfloor : c_cal_floor K == v_floor.
+Proof. exact (proj1 (proj2 (proj2 (proj2 (proj2 (proj2 (proj2 (proj2 (proj2 (consts_ok_inv K HK)))))))))). Qed.
+Let Hslope : c_cal_slope K == 4 # 1000.
+Proof. exact (proj1 (proj2 (proj2 (proj2 (proj2 (proj2 (proj2 (proj2 (proj2 (proj2 (consts_ok_inv K HK))))))))))). Qed.
+Let Hcoff : c_cal_off K == 1 # 10.
+Proof. exact (proj2 (proj2 (proj2 (proj2 (proj2 (proj2 (proj2 (proj2 (proj2 (proj2 (consts_ok_inv K HK))))))))))). Qed.
+
 Theorem pressure_formula : forall s v,
   v_floor <= v -> ~ supply s == 0 ->
-  pressure s v = Val (250 * (v / supply s) - 25).
+  exists y, pressure K s v = Val y /\ y == 250 * (v / supply s) - 25.
 Proof.
   intros s v Hv Hs. unfold pressure, pressure_try.
-  rewrite (pymax_ge v v_floor Hv), (pydiv_nonzero _ _ Hs). reflexivity.
+  assert (Hv' : c_floor K <= v) by (rewrite Hfloor; exact Hv).
+  rewrite (pymax_ge v _ Hv'), (pydiv_nonzero _ _ Hs).
+  eexists. split; [reflexivity|]. rewrite Hscale, Hoffset. reflexivity.
 Qed.
 
 Theorem pressure_below_floor : forall s v,
   v <= v_floor -> ~ supply s == 0 ->
-  exists y, pressure s v = Val y /\ y == 250 * (v_floor / supply s) - 25.
+  exists y, pressure K s v = Val y /\ y == 250 * (v_floor / supply s) - 25.
 Proof.
   intros s v Hv Hs. unfold pressure, pressure_try.
   rewrite (pydiv_nonzero _ _ Hs). eexists. split; [reflexivity|].
+  rewrite Hscale, Hoffset, (pymax_floor_eq v _ _ Hfloor).
   destruct (Qlt_le_dec v v_floor) as [H|H].
   - rewrite (pymax_lt _ _ H). reflexivity.
   - rewrite (pymax_ge _ _ H). assert (E : v == v_floor) by lra. rewrite E. reflexivity.
 Qed.
 
 Theorem pressure_total : forall s v,
-  exists y, pressure s v = Val y /\
-    (supply s == 0 -> y = 0) /\
-    (~ supply s == 0 -> y = 250 * (pymax v v_floor / supply s) - 25).
+  exists y, pressure K s v = Val y /\
+    (supply s == 0 -> y == 0) /\
+    (~ supply s == 0 -> y == 250 * (pymax v v_floor / supply s) - 25).
 Proof.
   intros s v. unfold pressure, pressure_try.
   destruct (Qeq_dec (supply s) 0) as [E|E].
-  - rewrite (pydiv_zero _ _ E). exists 0. repeat split; tauto.
-  - rewrite (pydiv_nonzero _ _ E). eexists. repeat split; tauto.
+  - rewrite (pydiv_zero _ _ E). eexists. split; [reflexivity|]. split; [intros _; exact Hzero|tauto].
+  - rewrite (pydiv_nonzero _ _ E). eexists. split; [reflexivity|]. split; [tauto|].
+    intros _. rewrite Hscale, Hoffset, (pymax_floor_eq v _ _ Hfloor). reflexivity.
 Qed.
 
 (* the `except` branch is taken exactly when the supply voltage is zero *)
 Theorem pressure_zero_branch : forall s v,
-  pressure_try s v = Raise ZeroDivisionError <-> supply s == 0.
+  pressure_try K s v = Raise ZeroDivisionError <-> supply s == 0.
 Proof.
   intros s v. unfold pressure_try. split.
   - destruct (Qeq_dec (supply s) 0) as [E|E]; [tauto|].
@@ -636,35 +688,49 @@ Qed.
 Lemma calib_den p : ~ p == -25 -> ~ (4 # 1000) * p + (1 # 10) == 0.
 Proof. intros H E. apply H. lra. Qed.
 
+Lemma cal_algebra m' m p : 0 < m -> ~ p == -25 ->
+  250 * (m' / (m / ((4 # 1000) * p + (1 # 10)))) - 25 == (p + 25) * (m' / m) - 25.
+Proof.
+  intros Hm Hp. pose proof (calib_den p Hp) as Hd.
+  field; repeat split; solve [exact Hd | lra].
+Qed.
+
+Lemma div_nonzero a b : ~ a == 0 -> ~ b == 0 -> ~ a / b == 0.
+Proof.
+  intros Ha Hb E. apply Ha.
+  setoid_replace a with (a / b * b) by (field; exact Hb). rewrite E. ring.
+Qed.
+
 (* after calibrate(p) at voltage v: the state, and the reading at any v' *)
 Theorem calibrated_general : forall s v p v',
   ~ p == -25 ->
   exists s' y,
-    calibrate s v p = Val s' /\ voltage_in s' = voltage_in s /\
+    calibrate K s v p = Val s' /\ voltage_in s' = voltage_in s /\
     ~ supply s' == 0 /\
-    pressure s' v' = Val y /\
+    pressure K s' v' = Val y /\
     y == (p + 25) * (pymax v' v_floor / pymax v v_floor) - 25.
 Proof.
-  intros s v p v' Hp. pose proof (calib_den p Hp) as Hd.
+  intros s v p v' Hp.
+  assert (Hd : ~ c_cal_slope K * p + c_cal_off K == 0).
+  { rewrite Hslope, Hcoff. exact (calib_den p Hp). }
   pose proof (pymax_floor_pos v) as Hv.
+  assert (Evo : pymax v (c_cal_floor K) == pymax v v_floor) by exact (pymax_floor_eq v _ _ Hcfloor).
+  assert (Hvo : ~ pymax v (c_cal_floor K) == 0) by (rewrite Evo; lra).
   unfold calibrate. rewrite (pydiv_nonzero _ _ Hd).
   eexists. eexists. split; [reflexivity|]. split; [reflexivity|].
-  assert (Hn : ~ pymax v v_floor / ((4 # 1000) * p + (1 # 10)) == 0).
-  { intro E. apply (Qmult_inj_r _ _ _ Hd) in E.
-    rewrite Qmult_0_l in E. unfold Qdiv in E.
-    rewrite <- Qmult_assoc, (Qmult_comm (/ _)), Qmult_inv_r, Qmult_1_r in E by exact Hd.
-    lra. }
+  pose proof (div_nonzero _ _ Hvo Hd) as Hn.
   split; [exact Hn|].
   unfold pressure, pressure_try, supply. simpl.
   rewrite (pydiv_nonzero _ _ Hn). split; [reflexivity|].
-  field; repeat split; solve [exact Hd | lra].
+  rewrite Hscale, Hoffset, (pymax_floor_eq v' _ _ Hfloor), Evo, Hslope, Hcoff.
+  apply cal_algebra; [exact Hv|exact Hp].
 Qed.
 
 Theorem calibrated : forall s v p,
   0 <= p ->
   exists s' y,
-    calibrate s v p = Val s' /\ voltage_in s' = voltage_in s /\
-    pressure s' v = Val y /\ y == p.
+    calibrate K s v p = Val s' /\ voltage_in s' = voltage_in s /\
+    pressure K s' v = Val y /\ y == p.
 Proof.
   intros s v p Hp.
   assert (Hp' : ~ p == -25) by lra.
@@ -674,7 +740,10 @@ Proof.
 Qed.
 
 Theorem calibrate_raises : forall s v p,
-  p == -25 -> calibrate s v p = Raise ZeroDivisionError.
+  p == -25 -> calibrate K s v p = Raise ZeroDivisionError.
 Proof.
-  intros s v p Hp. unfold calibrate. rewrite pydiv_zero; [reflexivity|]. lra.
+  intros s v p Hp. unfold calibrate. rewrite pydiv_zero; [reflexivity|].
+  rewrite Hslope, Hcoff. lra.
 Qed.
+
+End Pressure.
